@@ -1249,73 +1249,90 @@ def check_reindex_congruent(prog, rep, rels, rule='REINDEX-congruent',
     import ast
     from .core import unparse
     n = 0
+
+    def strip_mod(e, defs, depth=0):
+        """base expression text of an index array, looking through `X % L`, np.mod(X, L),
+        [i % L for i in X] and single-assignment names bound to such forms"""
+        if depth > 4:
+            return unparse(e)
+        if isinstance(e, ast.BinOp) and isinstance(e.op, ast.Mod):
+            return strip_mod(e.left, defs, depth + 1)
+        if isinstance(e, ast.Call) and unparse(e.func) in ('np.mod', 'np.remainder') and e.args:
+            return strip_mod(e.args[0], defs, depth + 1)
+        if isinstance(e, ast.Call) and unparse(e.func) in ('np.array', 'np.asarray', 'list') and \
+                e.args and isinstance(e.args[0], ast.ListComp):
+            e = e.args[0]
+        if isinstance(e, ast.ListComp) and len(e.generators) == 1 and isinstance(
+                e.generators[0].target, ast.Name) and isinstance(e.elt, ast.BinOp) and \
+                isinstance(e.elt.op, ast.Mod) and isinstance(e.elt.left, ast.Name) and \
+                e.elt.left.id == e.generators[0].target.id:
+            return strip_mod(e.generators[0].iter, defs, depth + 1)
+        if isinstance(e, ast.Name) and len(defs.get(e.id, [])) == 1:
+            d = defs[e.id][0]
+            inner = strip_mod(d, defs, depth + 1)
+            if inner != unparse(d):
+                return inner
+        return unparse(e)
     for rel in rels:
         m = prog.module(rel)
         for q, f in sorted(m.functions.items()):
-            comps = {}   # local name -> iter name of the comprehension it is bound to
-            used = {}    # attribute -> (iter name, line)
             defs = {}
+            filled = {}   # local list -> iter expr of the loop / comprehension that fills it
+            used = {}     # attribute -> (iter expr, line)
+            for st in ast.walk(f):
+                if isinstance(st, ast.Assign) and len(st.targets) == 1 and isinstance(
+                        st.targets[0], ast.Name):
+                    defs.setdefault(st.targets[0].id, []).append(st.value)
+
+            def comp_iter(v):
+                if isinstance(v, ast.ListComp) and len(v.generators) == 1 and isinstance(
+                        v.generators[0].target, ast.Name):
+                    lv = v.generators[0].target.id
+                    if any(isinstance(x, ast.Name) and x.id == lv for x in ast.walk(v.elt)):
+                        return v.generators[0].iter
+                return None
+            for st in ast.walk(f):
+                if isinstance(st, ast.Assign) and len(st.targets) == 1 and isinstance(
+                        st.targets[0], ast.Name):
+                    it = comp_iter(st.value)
+                    if it is not None:
+                        filled[st.targets[0].id] = it
+                if isinstance(st, ast.For) and isinstance(st.target, ast.Name):
+                    lv = st.target.id
+                    for c in ast.walk(st):
+                        if isinstance(c, ast.Call) and isinstance(c.func, ast.Attribute) and \
+                                c.func.attr == 'append' and isinstance(c.func.value, ast.Name) and \
+                                c.args and any(isinstance(x, ast.Name) and x.id == lv
+                                               for x in ast.walk(c.args[0])):
+                            filled.setdefault(c.func.value.id, st.iter)
             for st in ast.walk(f):
                 if not (isinstance(st, ast.Assign) and len(st.targets) == 1):
                     continue
                 t, v = st.targets[0], st.value
-                if isinstance(t, ast.Name):
-                    defs.setdefault(t.id, []).append(v)
-                it = None
-                if isinstance(v, ast.ListComp) and len(v.generators) == 1 and isinstance(
-                        v.generators[0].iter, ast.Name) and isinstance(
-                            v.generators[0].target, ast.Name):
-                    # the element must be looked up at the loop variable
-                    lv = v.generators[0].target.id
-                    if any(isinstance(x, ast.Name) and x.id == lv for x in ast.walk(v.elt)):
-                        it = v.generators[0].iter.id
-                if isinstance(t, ast.Name) and it:
-                    comps[t.id] = it
                 if isinstance(t, ast.Attribute) and isinstance(t.value, ast.Name) and \
                         t.value.id == 'self' and t.attr in attrs:
-                    if it:
+                    it = comp_iter(v)
+                    if it is None and isinstance(v, ast.Name) and v.id in filled:
+                        it = filled[v.id]
+                    if it is not None and not any(
+                            ('self.' + a_) in unparse(it) for a_ in attrs):
+                        # (iterating over a container itself is an element-wise map, not a
+                        # re-ordering by an index array)
                         used[t.attr] = (it, st.lineno)
-                    elif isinstance(v, ast.Name) and v.id in comps:
-                        used[t.attr] = (comps[v.id], st.lineno)
             if len(used) < 2:
                 continue
             n += 1
-            names = sorted({i for i, _ in used.values()})
-            rep.instance(rule, {'function': q, 'containers': sorted(used), 'index_arrays': names})
-            if len(names) == 1:
-                continue
-
-            def reduced_of(a, b):
-                """is `a` defined (only) as `b % self.L` / np.mod(b, self.L)?"""
-                ds = defs.get(a, [])
-                if len(ds) != 1:
-                    return False
-                d = ds[0]
-                if isinstance(d, ast.BinOp) and isinstance(d.op, ast.Mod) and \
-                        isinstance(d.left, ast.Name) and d.left.id == b:
-                    return True
-                if isinstance(d, ast.Call) and unparse(d.func) in ('np.mod', 'np.remainder') and \
-                        d.args and isinstance(d.args[0], ast.Name) and d.args[0].id == b:
-                    return True
-                if isinstance(d, ast.Call) and unparse(d.func) in ('np.array', 'np.asarray', 'list') \
-                        and d.args:
-                    d = d.args[0]
-                if isinstance(d, ast.ListComp) and len(d.generators) == 1 and isinstance(
-                        d.generators[0].iter, ast.Name) and d.generators[0].iter.id == b and \
-                        isinstance(d.generators[0].target, ast.Name) and isinstance(d.elt, ast.BinOp) \
-                        and isinstance(d.elt.op, ast.Mod) and isinstance(d.elt.left, ast.Name) and \
-                        d.elt.left.id == d.generators[0].target.id:
-                    return True   # [i % L for i in b]
-                return False
-            base = names[0]
-            for other in names[1:]:
-                if not (reduced_of(other, base) or reduced_of(base, other)):
-                    line = min(l for i, l in used.values() if i in (other, base))
-                    rep.violation(rule, m, q, 'independent-index-arrays:%s:%s' % (base, other),
-                                  'the per-site containers %s are re-ordered with `%s` and `%s`, '
-                                  'which are not defined as one another modulo L: sites / forms '
-                                  'may end up next to tensors they do not belong to' %
-                                  (sorted(used), base, other), line)
+            bases = {a: strip_mod(it, defs) for a, (it, _) in used.items()}
+            rep.instance(rule, {'function': q, 'containers': sorted(used),
+                                'index_arrays': sorted({unparse(it)[:40] for it, _ in used.values()}),
+                                'bases': sorted(set(bases.values()))})
+            if len(set(bases.values())) > 1:
+                line = min(l for _, l in used.values())
+                rep.violation(rule, m, q, 'independent-index-arrays:' + ':'.join(
+                    sorted(set(bases.values())))[:80],
+                    'the per-site containers %s are re-ordered with index arrays that are not '
+                    'one another modulo L (%s): sites / forms may end up next to tensors they '
+                    'do not belong to' % (sorted(used), sorted(set(bases.values()))), line)
     return n
 
 
